@@ -265,6 +265,9 @@ def values(case):
                 extra = diff(c0, c) - OWN.get(f, set())
                 if f == "scenario":
                     extra -= {"DELAY"}
+                if cx.iso in ("SLV", "ALB", "ECU"):
+                    # the repository deliberately rewrites the shut-off of three known-bad (country, option) combinations to "immediate"
+                    extra -= OWN["shutoff"]
                 if extra:
                     cx.bad("option_changes_unrelated_constant", "%s: %s -> %s also changes %s" % (f, base.get(f), v, sorted(extra)[:6]), family=f, value=v, keys=sorted(extra)[:10])
     return cx
